@@ -15,7 +15,8 @@ def run(rep, tier):
     for q in _g5.MATCHING:
         vcrun.run_bounded(rep, q, tier, "run-time evaluation of the proved contract on the real code (cross-check of the "
                                        "contract and of the R8 model; not counted as proof)", limit=600 if tier == "quick" else 20000)
+    _b4.decide(rep)      # F6: __repr__ decided unit by unit over all code points (complete modulo the reviewed body form)
     _b4.run(rep, tier)   # compile() / get_compiled_pattern() compile the EXPORTED text: __repr__'s contract is assumed in the VCs
-    rep.trusted += _g5.R8 + ["assumed contract of Pregex.__repr__ (exported text compiles to the same regex): bounded stand-in B4 only"]
+    rep.trusted += _g5.R8 + ["contract of Pregex.__repr__ (exported text compiles to the same regex) as used by the VCs: decided by F6 (unit-wise; body form compared each run), end to end by B4"]
     rep.assumptions += ["what re finds is uninterpreted: the claim is that pregex passes exactly (pattern, flags, text) to re "
                         "and returns re's answer through the documented accessors"]
